@@ -13,8 +13,9 @@ package frame
 //@ type FrameV1
 //@   invariant layout [C02,C13,C17]: self.data != nil ==> layout(self.data, self.messageIndex, self.authIndex, self.appendixIndex)
 //@   invariant recvlink-not-typed-nil [C13]: self.recvLink != nil ==> nonnil(self.recvLink)
+//@   invariant builder-margins [C13]: self.builder != nil ==> (0 <= self.builder.offset.v && self.builder.offset.v <= 100 && 0 <= self.builder.overhead.v && self.builder.overhead.v <= 100)
 //@   invariant offset-range [C13]: self.data != nil ==> 0 <= self.psDataOffset && self.psDataOffset <= 65536
-//@   invariant pooled [C17]: self.data != nil && self.pooledSlice != nil ==> base(self.data) == base(self.pooledSlice) && self.psDataOffset >= 0 && off(self.data) == off(self.pooledSlice) + self.psDataOffset && len(self.pooledSlice) == cap(self.pooledSlice) && self.psDataOffset + cap(self.data) <= len(self.pooledSlice)
+//@   invariant pooled [C17]: self.data != nil && self.pooledSlice != nil ==> base(self.data) == base(self.pooledSlice) && self.psDataOffset >= 0 && off(self.data) == off(self.pooledSlice) + self.psDataOffset && len(self.pooledSlice) == cap(self.pooledSlice) && off(self.pooledSlice) == 0 && self.psDataOffset + cap(self.data) <= len(self.pooledSlice)
 
 //@ pool Builder.frameV1Pool
 //@   yields *FrameV1
@@ -23,7 +24,7 @@ package frame
 
 //@ func Builder.ParseFrameV1
 //@   requires b != nil && 0 <= dataOffset && dataOffset <= 65536
-//@   requires pooledSlice != nil ==> base(data) == base(pooledSlice) && dataOffset >= 0 && off(data) == off(pooledSlice) + dataOffset && len(pooledSlice) == cap(pooledSlice) && dataOffset + cap(data) <= len(pooledSlice)
+//@   requires pooledSlice != nil ==> base(data) == base(pooledSlice) && dataOffset >= 0 && off(data) == off(pooledSlice) + dataOffset && len(pooledSlice) == cap(pooledSlice) && off(pooledSlice) == 0 && dataOffset + cap(data) <= len(pooledSlice)
 //@   ensures wf [C02,C13]: result1 == nil ==> result0 != nil && result0.data != nil && len(result0.data) == len(data) && base(result0.data) == base(data) && off(result0.data) == off(data)
 //@   ensures err-nil-frame: result1 != nil ==> result0 == nil
 //@   ensures fresh-fields [C17]: result1 == nil ==> result0.recvLink == nil && !result0.src.IsValid() && !result0.dst.IsValid() && result0.builder == b
@@ -70,6 +71,9 @@ package frame
 //@   ensures released [C13,C17]: old(f.builder) != nil ==> f.dblReturnCheck == 1 && f.data == nil && f.pooledSlice == nil && f.recvLink == nil
 
 //@ pred live(f *FrameV1) = f != nil && f.data != nil
+// usable: enough of a frame to turn it into a reply (initFrame only needs the message type byte, the buffer and the builder)
+//@ pred usable(f *FrameV1) = f != nil && f.data != nil && len(f.data) >= 5 && f.builder != nil && 0 <= f.builder.offset.v && f.builder.offset.v <= 100 && 0 <= f.builder.overhead.v && f.builder.overhead.v <= 100 && (f.pooledSlice != nil ==> cap(f.pooledSlice) == len(f.pooledSlice) && off(f.pooledSlice) == 0)
+//@ pred buffered(f *FrameV1) = f.pooledSlice != nil && base(f.data) == base(f.pooledSlice) && 0 <= f.psDataOffset && f.psDataOffset <= 100 && off(f.data) == off(f.pooledSlice) + f.psDataOffset && len(f.pooledSlice) == cap(f.pooledSlice) && off(f.pooledSlice) == 0 && f.psDataOffset + cap(f.data) <= len(f.pooledSlice)
 
 //@ func FrameV1.Clone
 //@   requires live(f) && f.builder != nil && f.pooledSlice != nil && len(f.pooledSlice) <= 65675
@@ -103,7 +107,7 @@ package frame
 
 //@ func FrameV1.setData
 //@   option noinv
-//@   requires cap(f.data) >= 49 + len(switchBlock) + 2 + len(message) + authLen(f.data[4]) + len(appendix) && len(f.data) >= 5
+//@   requires 51 + len(switchBlock) + len(message) + authLen(f.data[4]) + len(appendix) <= cap(f.data) && len(f.data) >= 5 && len(switchBlock) <= 1048576 && len(message) <= 1048576 && len(appendix) <= 1048576
 //@   requires base(switchBlock) != base(f.data) && base(message) != base(f.data) && base(appendix) != base(f.data)
 //@   ensures indices [C02,C17]: result == nil ==> f.messageIndex == 49 + len(switchBlock) && f.authIndex == f.messageIndex + 2 + len(message) && len(f.data) == f.appendixIndex + len(appendix) && len(f.data) <= cap(f.data)
 //@   ensures auth-size [C02,C17]: result == nil ==> f.appendixIndex == f.authIndex + authLen(f.data[4]) && f.data[4] == old(f.data[4])
@@ -112,7 +116,9 @@ package frame
 //@   ensures content-message [C02,C17]: result == nil ==> (forall i int :: 0 <= i && i < len(message) ==> f.data[f.messageIndex+2+i] == message[i])
 //@   ensures auth-zero [C02,C17]: result == nil ==> (forall i int :: f.authIndex <= i && i < f.appendixIndex ==> f.data[i] == 0)
 //@   ensures header-kept [C02,C17]: result == nil ==> (forall i int :: 0 <= i && i < 48 ==> f.data[i] == old(f.data[i]))
+//@   ensures header-bytes-kept [C02,C17]: result == nil ==> f.data[0] == old(f.data[0]) && f.data[1] == old(f.data[1]) && f.data[2] == old(f.data[2]) && f.data[3] == old(f.data[3])
 //@   ensures same-base: base(f.data) == old(base(f.data)) && off(f.data) == old(off(f.data)) && cap(f.data) == old(cap(f.data))
+//@   ensures error-keeps-buffer [C13]: result != nil ==> len(f.data) == cap(f.data)
 //@   ensures limits: result == nil ==> len(switchBlock) <= 255 && len(message) >= 1 && len(message) <= 10000 && len(appendix) <= 10000
 
 //@ func FrameV1.initFrame
@@ -120,17 +126,19 @@ package frame
 //@   requires f.builder != nil
 //@   requires f.builder != nil ==> (0 <= f.builder.offset.v && f.builder.offset.v <= 100 && 0 <= f.builder.overhead.v && f.builder.overhead.v <= 100)
 //@   requires f.pooledSlice != nil ==> cap(f.pooledSlice) == len(f.pooledSlice) && off(f.pooledSlice) == 0
-//@   requires len(switchLabels) <= 1000000 && len(data) <= 1000000 && len(appendixData) <= 1000000
+//@   requires len(switchLabels) <= 1048576 && len(data) <= 1048576 && len(appendixData) <= 1048576
 //@   requires f.pooledSlice != nil ==> base(switchLabels) != base(f.pooledSlice) && base(data) != base(f.pooledSlice) && base(appendixData) != base(f.pooledSlice)
 //@   ensures live [C17]: result == nil ==> f.data != nil && layout(f.data, f.messageIndex, f.authIndex, f.appendixIndex)
-//@   ensures buffer [C17]: result == nil ==> f.pooledSlice != nil && base(f.data) == base(f.pooledSlice) && (base(f.pooledSlice) == old(base(f.pooledSlice)) || fresh(base(f.pooledSlice))) && 0 <= f.psDataOffset && f.psDataOffset <= 100 && off(f.data) == off(f.pooledSlice) + f.psDataOffset && len(f.pooledSlice) == cap(f.pooledSlice) && f.psDataOffset + cap(f.data) <= len(f.pooledSlice)
+//@   ensures keeps [C17]: f.builder == old(f.builder) && f.dblReturnCheck == old(f.dblReturnCheck)
+//@   ensures buffer [C17]: result == nil ==> f.pooledSlice != nil && base(f.data) == base(f.pooledSlice) && (base(f.pooledSlice) == old(base(f.pooledSlice)) || fresh(base(f.pooledSlice))) && 0 <= f.psDataOffset && f.psDataOffset <= 100 && off(f.data) == off(f.pooledSlice) + f.psDataOffset && len(f.pooledSlice) == cap(f.pooledSlice) && off(f.pooledSlice) == 0 && f.psDataOffset + cap(f.data) <= len(f.pooledSlice)
+//@   ensures usable-after-error [C13]: result != nil && old(len(f.data)) >= 5 ==> f.data != nil && len(f.data) >= 5 && f.builder == old(f.builder) && (f.pooledSlice != nil ==> cap(f.pooledSlice) == len(f.pooledSlice) && off(f.pooledSlice) == 0)
 //@   ensures link-reset [C17]: result == nil ==> f.recvLink == nil
 //@   ensures addresses [C02,C17]: result == nil ==> f.src == src && f.dst == dst && f.data[4] == uint8(msgType) && f.data[1] == 32 && f.data[2] == 0
 //@   ensures payload [C02,C17]: result == nil ==> f.messageIndex == 49 + len(switchLabels) && f.authIndex == f.messageIndex + 2 + len(data) && (forall i int :: 0 <= i && i < len(data) ==> f.data[f.messageIndex+2+i] == data[i])
 
 //@ func Builder.NewFrameV1
 //@   requires b != nil && 0 <= b.offset.v && b.offset.v <= 100 && 0 <= b.overhead.v && b.overhead.v <= 100
-//@   requires len(switchLabels) <= 1000000 && len(data) <= 1000000 && len(appendixData) <= 1000000
+//@   requires len(switchLabels) <= 1048576 && len(data) <= 1048576 && len(appendixData) <= 1048576
 //@   ensures live [C17]: result1 == nil ==> live(result0) && result0.builder == b && result0.dblReturnCheck == 0
 //@   ensures fresh [C17]: result1 == nil ==> fresh(result0) && result0.recvLink == nil
 //@   ensures content [C02,C17]: result1 == nil ==> result0.src == src && result0.dst == dst && result0.data[4] == uint8(msgType) && result0.messageIndex == 49 + len(switchLabels) && result0.authIndex == result0.messageIndex + 2 + len(data) && (forall i int :: 0 <= i && i < len(data) ==> result0.data[result0.messageIndex+2+i] == data[i])
@@ -138,12 +146,23 @@ package frame
 
 //@ func FrameV1.Reply
 //@   option noinv
-//@   requires live(f) && layout(f.data, f.messageIndex, f.authIndex, f.appendixIndex) && f.builder != nil && 0 <= f.builder.offset.v && f.builder.offset.v <= 100 && 0 <= f.builder.overhead.v && f.builder.overhead.v <= 100
-//@   requires f.pooledSlice != nil ==> cap(f.pooledSlice) == len(f.pooledSlice) && off(f.pooledSlice) == 0
-//@   requires len(switchLabels) <= 1000000 && len(data) <= 1000000 && len(appendixData) <= 1000000
+//@   requires usable(f)
+//@   requires len(switchLabels) <= 1048576 && len(data) <= 1048576 && len(appendixData) <= 1048576
 //@   requires f.pooledSlice != nil ==> base(switchLabels) != base(f.pooledSlice) && base(data) != base(f.pooledSlice) && base(appendixData) != base(f.pooledSlice)
 //@   ensures swapped [C17]: result == nil ==> f.src == old(f.dst) && f.dst == old(f.src) && f.data[4] == old(f.data[4]) && f.recvLink == nil
-//@   ensures relaid [C17]: result == nil ==> live(f) && layout(f.data, f.messageIndex, f.authIndex, f.appendixIndex) && f.messageIndex == 49 + len(switchLabels) && (forall i int :: 0 <= i && i < len(data) ==> f.data[f.messageIndex+2+i] == data[i])
+//@   ensures relaid [C17]: result == nil ==> live(f) && layout(f.data, f.messageIndex, f.authIndex, f.appendixIndex) && buffered(f) && f.messageIndex == 49 + len(switchLabels) && (forall i int :: 0 <= i && i < len(data) ==> f.data[f.messageIndex+2+i] == data[i])
+//@   ensures usable-after-error [C13]: result != nil ==> usable(f)
+//@   ensures keeps [C17]: f.builder == old(f.builder) && f.dblReturnCheck == old(f.dblReturnCheck)
+
+//@ func FrameV1.ReplyTo
+//@   option noinv
+//@   requires usable(f)
+//@   requires len(switchLabels) <= 1048576 && len(data) <= 1048576 && len(appendixData) <= 1048576
+//@   requires f.pooledSlice != nil ==> base(switchLabels) != base(f.pooledSlice) && base(data) != base(f.pooledSlice) && base(appendixData) != base(f.pooledSlice)
+//@   ensures addressed [C17]: result == nil ==> f.src == src && f.dst == dst && f.data[4] == old(f.data[4]) && f.recvLink == nil
+//@   ensures relaid [C17]: result == nil ==> live(f) && layout(f.data, f.messageIndex, f.authIndex, f.appendixIndex) && buffered(f) && f.messageIndex == 49 + len(switchLabels) && (forall i int :: 0 <= i && i < len(data) ==> f.data[f.messageIndex+2+i] == data[i])
+//@   ensures usable-after-error [C13]: result != nil ==> usable(f)
+//@   ensures keeps [C17]: f.builder == old(f.builder) && f.dblReturnCheck == old(f.dblReturnCheck)
 
 //@ func FrameV1.SetAppendixData
 //@   requires live(f)
@@ -212,5 +231,5 @@ package frame
 
 //@ func Builder.ParseFrame
 //@   requires b != nil && 0 <= dataOffset && dataOffset <= 65536
-//@   requires pooledSlice != nil ==> base(data) == base(pooledSlice) && dataOffset >= 0 && off(data) == off(pooledSlice) + dataOffset && len(pooledSlice) == cap(pooledSlice) && dataOffset + cap(data) <= len(pooledSlice)
+//@   requires pooledSlice != nil ==> base(data) == base(pooledSlice) && dataOffset >= 0 && off(data) == off(pooledSlice) + dataOffset && len(pooledSlice) == cap(pooledSlice) && off(pooledSlice) == 0 && dataOffset + cap(data) <= len(pooledSlice)
 //@   ensures frame [C02,C13]: result1 == nil ==> nonnil(result0) && result0.data != nil && len(result0.data) == len(data) && base(result0.data) == base(data) && off(result0.data) == off(data) && result0.recvLink == nil
